@@ -71,6 +71,18 @@ theorem indices_pos (s : PySlice) (len : Nat) (h : s.PosStep) :
   ⟨_, _, _, indices_pos_eq s len h, stepOf_pos s h, (posStart_bounds s len).1, (posStart_bounds s len).2,
     (posStop_bounds s len).1, (posStop_bounds s len).2⟩
 
+/-- the only error of `slice.indices` is `ValueError` (step 0) -/
+theorem indices_err (s : PySlice) (len : Nat) (e : Err) (h : s.indices len = .error e) :
+    e = .valueError := by
+  obtain ⟨st, sp, k⟩ := s
+  cases k with
+  | none => simp [PySlice.indices] at h
+  | some k =>
+    by_cases hk : k = 0
+    · simp [PySlice.indices, hk] at h
+      exact h.symm
+    · simp [PySlice.indices, hk] at h
+
 theorem indices_full (len : Nat) : PySlice.full.indices len = .ok (0, (len : Int), 1) := by
   simp [PySlice.indices, PySlice.full]
 
